@@ -245,29 +245,29 @@ theorem header_fields (a b c d : Bytes) (ha : a.length = 4) (hb : b.length = 12)
     rw [← hd]; exact List.take_length
 
 /-- outcome of the dispatch on the command once header and checksum are accepted -/
-def dispatch (command msg rest : Bytes) : Res (Option Msg) × Bytes :=
-  match msgDeser command with
+def dispatch (pv : Nat) (command msg rest : Bytes) : Res (Option Msg) × Bytes :=
+  match msgDeser pv command with
   | some p =>
       (match p msg with
        | .ok (m, _) => (.ok (some m), rest)
        | .error e => (.error e, rest))
   | none => (.ok none, rest)
 
-theorem streamDeserialize_short (magic s : Bytes) (h : s.length < 24) :
-    streamDeserialize magic s = (.error .trunc, []) := by
+theorem streamDeserialize_short (magic : Bytes) (pv : Nat) (s : Bytes) (h : s.length < 24) :
+    streamDeserialize magic pv s = (.error .trunc, []) := by
   unfold streamDeserialize readPos
   have : ¬ 24 > MAX_SIZE := by decide
   simp [this, h]
 
 /-- `stream_deserialize` on a stream holding at least the 24 header bytes, as a decision list -/
-theorem streamDeserialize_unfold (magic s : Bytes) (h : 24 ≤ s.length) :
-    streamDeserialize magic s =
+theorem streamDeserialize_unfold (magic : Bytes) (pv : Nat) (s : Bytes) (h : 24 ≤ s.length) :
+    streamDeserialize magic pv s =
       if s.take 4 ≠ magic then (.error .valueerr, s.drop 24)
       else if declaredLen s > MAX_SIZE then (.error .sererr, s.drop 24)
       else if s.length - 24 < declaredLen s then (.error .trunc, [])
       else if (s.drop 20).take 4 ≠ Model.Msg.checksum ((s.drop 24).take (declaredLen s)) then
         (.error .valueerr, s.drop (24 + declaredLen s))
-      else dispatch (((s.drop 4).take 12).takeWhile (· ≠ 0)) ((s.drop 24).take (declaredLen s))
+      else dispatch pv (((s.drop 4).take 12).takeWhile (· ≠ 0)) ((s.drop 24).take (declaredLen s))
         (s.drop (24 + declaredLen s)) := by
   unfold streamDeserialize
   have h0 : ¬ 24 > MAX_SIZE := by decide
@@ -322,10 +322,10 @@ theorem stream_fields (a b c d body : Bytes) (ha : a.length = 4) (hb : b.length 
   · exact List.drop_left' hl
 
 /-- what `stream_deserialize` does on a well-formed header followed by its payload -/
-theorem streamDeserialize_frame (hck : ChecksumLen) (magic cmd payload rest : Bytes)
+theorem streamDeserialize_frame (hck : ChecksumLen) (magic : Bytes) (pv : Nat) (cmd payload rest : Bytes)
     (hm : magic.length = 4) (hc : cmd.length ≤ 12) (hz : ∀ b ∈ cmd, b ≠ 0)
     (hp : payload.length ≤ MAX_SIZE) :
-    streamDeserialize magic (Spec.Msg.frame magic cmd payload ++ rest) = dispatch cmd payload rest := by
+    streamDeserialize magic pv (Spec.Msg.frame magic cmd payload ++ rest) = dispatch pv cmd payload rest := by
   have hk : (Spec.Msg.checksum payload).length = 4 := hck payload
   have hcf := commandField_length cmd hc
   have hp32 : payload.length < 256 ^ 4 := by
@@ -336,7 +336,7 @@ theorem streamDeserialize_frame (hck : ChecksumLen) (magic cmd payload rest : By
   have hs : Spec.Msg.frame magic cmd payload ++ rest =
       magic ++ commandField cmd ++ leBytes 4 payload.length ++ Spec.Msg.checksum payload ++ (payload ++ rest) := by
     simp [Spec.Msg.frame]
-  rw [hs, streamDeserialize_unfold _ _ g0, g1, g2, g3, g4, g5]
+  rw [hs, streamDeserialize_unfold _ _ _ g0, g1, g2, g3, g4, g5]
   rw [leNat_leBytes, Nat.mod_eq_of_lt hp32]
   have h1 : ¬ payload.length > MAX_SIZE := by omega
   have h2 : ¬ (magic ++ commandField cmd ++ leBytes 4 payload.length ++ Spec.Msg.checksum payload ++
@@ -355,45 +355,53 @@ theorem beNat_beBytes2 (n : Nat) (h : n < 2 ^ 16) : beNat (beBytes 2 n) = n := b
   simp [beBytes, leBytes, beNat, UInt8.toNat_ofNat']
   omega
 
-theorem proto_ge : (PROTO_VERSION ≥ CADDR_TIME_VERSION) = True := by decide
+theorem caddr_eq : CADDR_TIME_VERSION = caddrTimeVersion := rfl
 
 theorem serAddr_ok (wt : Bool) (a : NetAddr) (h : WFAddr a) :
     serAddr wt a = .ok (netAddr (!wt) a) := by
   obtain ⟨h1, h2, h3, h4, h5⟩ := h
-  have hp : (a.protover ≥ CADDR_TIME_VERSION) = True := by rw [h1]; decide
-  have hp' : CADDR_TIME_VERSION ≤ a.protover := by rw [h1]; decide
   unfold serAddr netAddr packBE2
-  rw [packU_ok 8 _ (by norm_num; omega), if_pos (show a.port < 256 ^ 2 by norm_num; omega)]
+  rw [packU_ok 8 _ (by norm_num; omega), if_pos (show a.port < 256 ^ 2 by norm_num; omega), caddr_eq]
   cases wt
-  · simp [hp, packU_ok 4 _ (show a.nTime < 256 ^ 4 by norm_num; omega)]
+  · by_cases hp : a.protover ≥ caddrTimeVersion
+    · simp [hp, packU_ok 4 _ (show a.nTime < 256 ^ 4 by norm_num; omega)]
+    · simp [hp]
   · simp
 
+/-- an address entry read under the protocol version it was written for -/
 theorem deAddr_append (wt : Bool) (a : NetAddr) (rest : Bytes) (h : WFAddr a)
     (ht : wt = true → a.nTime = 0) :
-    deAddr wt (netAddr (!wt) a ++ rest) = .ok (a, rest) := by
+    deAddr a.protover wt (netAddr (!wt) a ++ rest) = .ok (a, rest) := by
   obtain ⟨h1, h2, h3, h4, h5⟩ := h
+  have tailOK : ∀ t : Nat, t = a.nTime →
+      (do let (sv, r) ← readU 8 (leBytes 8 a.nServices ++ (a.ip ++ (beBytes 2 a.port ++ rest)))
+          let (ip, r) ← serRead 16 r
+          let (pb, r) ← serRead 2 r
+          pure (({ protover := a.protover, nTime := t, nServices := sv, ip := ip, port := beNat pb } : NetAddr), r))
+        = .ok (a, rest) := by
+    intro t ht'
+    rw [readU_append 8 _ _ (by decide) (by norm_num; omega)]
+    simp only [Res.ok_bind]
+    rw [serRead_append' 16 _ _ h4 (by decide)]
+    simp only [Res.ok_bind]
+    rw [serRead_append' 2 (beBytes 2 a.port) rest (by simp [beBytes]) (by decide)]
+    simp only [Res.ok_bind, Res.pure_eq, beNat_beBytes2 _ h5, ht']
   unfold deAddr netAddr
+  rw [caddr_eq]
   cases wt
-  · simp only [proto_ge, Bool.not_false, Bool.and_true, decide_true, if_true, List.append_assoc]
-    rw [readU_append 4 _ _ (by decide) (by norm_num; omega)]
-    simp only [Res.ok_bind]
-    rw [readU_append 8 _ _ (by decide) (by norm_num; omega)]
-    simp only [Res.ok_bind]
-    rw [serRead_append' 16 _ _ h4 (by decide)]
-    simp only [Res.ok_bind]
-    rw [serRead_append' 2 (beBytes 2 a.port) rest (by simp [beBytes]) (by decide)]
-    simp only [Res.ok_bind, Res.pure_eq, beNat_beBytes2 _ h5]
-    cases a; simp_all [PROTO_VERSION, protoVersion]
+  · by_cases hp : a.protover ≥ caddrTimeVersion
+    · simp only [hp, Bool.not_false, Bool.and_true, decide_true, if_true, List.append_assoc, Bool.true_and]
+      rw [readU_append 4 _ _ (by decide) (by norm_num; omega)]
+      simp only [Res.ok_bind]
+      exact tailOK _ rfl
+    · have h0 : a.nTime = 0 := h2 (by omega)
+      simp only [hp, Bool.not_false, Bool.and_true, decide_false, Bool.false_eq_true, if_false,
+        List.nil_append, List.append_assoc, Res.pure_eq, Res.ok_bind, Bool.true_and]
+      exact tailOK 0 h0.symm
   · have ht0 := ht rfl
-    simp only [proto_ge, Bool.not_true, Bool.and_false, Bool.false_eq_true, if_false, List.nil_append,
-      List.append_assoc, Res.pure_eq, Res.ok_bind]
-    rw [readU_append 8 _ _ (by decide) (by norm_num; omega)]
-    simp only [Res.ok_bind]
-    rw [serRead_append' 16 _ _ h4 (by decide)]
-    simp only [Res.ok_bind]
-    rw [serRead_append' 2 (beBytes 2 a.port) rest (by simp [beBytes]) (by decide)]
-    simp only [Res.ok_bind, beNat_beBytes2 _ h5]
-    cases a; simp_all [PROTO_VERSION, protoVersion]
+    simp only [Bool.not_true, Bool.and_false, Bool.false_eq_true, if_false, List.nil_append,
+      List.append_assoc, Res.pure_eq, Res.ok_bind, Bool.false_and]
+    exact tailOK 0 ht0.symm
 
 theorem serInv_ok (i : Inv) (h : WFInv i) : serInv i = .ok (invEntry i) := by
   obtain ⟨h1, h2, _⟩ := h
@@ -483,7 +491,7 @@ theorem optWF_iff {α} (P : α → Prop) (o : Option α) : optWF P o ↔ ∃ x, 
   cases o <;> simp [optWF]
 
 theorem serVersion_ok (v : VersionMsg) (h : WFVersion v) : serVersion v = .ok (versionPayload v) := by
-  obtain ⟨h1, h2, _, h3, h4, h5, ⟨h6, _⟩, g106, g209, g70001⟩ := h
+  obtain ⟨h1, h2, h3, h4, h5, ⟨h6, _⟩, g106, g209, g70001⟩ := h
   have := maxSize_lt
   unfold serVersion versionPayload
   rw [packI4_ok _ h1 h2, packU_ok 8 _ (show v.nServices < 256 ^ 8 by norm_num; omega), packI8_ok _ h4 h5,
@@ -514,13 +522,19 @@ theorem serVersion_ok (v : VersionMsg) (h : WFVersion v) : serVersion v = .ok (v
     have c3 : ¬ v.nVersion ≥ 70001 := by omega
     simp [c1, c2, c3]
 
-theorem deVersion_append (v : VersionMsg) (rest : Bytes) (h : WFVersion v) :
-    deVersion (versionPayload v ++ rest) = .ok (.version v, rest) := by
-  obtain ⟨h1, h2, c0, h3, h4, h5, h6, g106, g209, g70001⟩ := h
+theorem optAll_some {α} (P : α → Prop) (o : Option α) (x : α) (h : optAll P o) (hx : o = some x) : P x := by
+  subst hx; exact h
+
+theorem deVersion_append (pv : Nat) (v : VersionMsg) (rest : Bytes) (h : WFVersion v)
+    (hpv : AddrProto pv (.version v)) :
+    deVersion pv (versionPayload v ++ rest) = .ok (.version v, rest) := by
+  obtain ⟨h1, h2, h3, h4, h5, h6, g106, g209, g70001⟩ := h
+  obtain ⟨hpTo, hpFrom⟩ := hpv
+  subst hpTo
   unfold deVersion versionPayload
   simp only [List.append_assoc]
   rw [readI4_append _ _ h1 h2]
-  simp only [Res.ok_bind, c0, if_false]
+  simp only [Res.ok_bind]
   rw [readU_append 8 _ _ (by decide) (by norm_num; omega)]
   simp only [Res.ok_bind]
   rw [readI8_append _ _ h4 h5]
@@ -536,7 +550,8 @@ theorem deVersion_append (v : VersionMsg) (rest : Bytes) (h : WFVersion v) :
     obtain ⟨s, hs, hs2⟩ := (optWF_iff _ _).mp g9
     rw [hfr, hn, hs]
     simp only [c1, if_true, optBytes, List.append_assoc]
-    rw [show netAddr false fr = netAddr (!true) fr from rfl, deAddr_append true _ _ hfw (fun _ => hft)]
+    have hpf : fr.protover = v.addrTo.protover := optAll_some _ _ fr hpFrom hfr
+    rw [show netAddr false fr = netAddr (!true) fr from rfl, ← hpf, deAddr_append true _ _ hfw (fun _ => hft)]
     simp only [Res.ok_bind]
     rw [readU_append 8 _ _ (by decide) (by norm_num; omega)]
     simp only [Res.ok_bind]
@@ -825,15 +840,18 @@ theorem msgSer_ok (m : Msg) (h : WFMsg m) : msgSer m = .ok (payload m) := by
   | mempool => rfl
 
 /-- the `messagemap` entry of each type parses the Spec payload back, whatever follows it -/
-theorem payload_parse (m : Msg) (h : WFMsg m) :
-    ∃ p, msgDeser (Spec.Msg.command m) = some p ∧ ∀ rest, p (payload m ++ rest) = .ok (norm m, rest) := by
+theorem payload_parse (pv : Nat) (m : Msg) (h : WFMsg m) (hpv : AddrProto pv m) :
+    ∃ p, msgDeser pv (Spec.Msg.command m) = some p ∧ ∀ rest, p (payload m ++ rest) = .ok (norm m, rest) := by
   cases m with
-  | version v => exact ⟨_, rfl, fun rest => deVersion_append v rest h⟩
+  | version v => exact ⟨_, rfl, fun rest => deVersion_append pv v rest h hpv⟩
   | verack => exact ⟨_, rfl, fun rest => rfl⟩
   | addr as =>
       exact ⟨_, rfl, fun rest => mapP_ok _ _ _ _ _
-        (deVector_append (deAddr false) (netAddr true) as rest h.1
-          (fun a ha r => deAddr_append false a r (h.2 a ha) (fun hh => by cases hh)))⟩
+        (deVector_append (deAddr pv false) (netAddr true) as rest h.1
+          (fun a ha r => by
+            have := deAddr_append false a r (h.2 a ha) (fun hh => by cases hh)
+            rw [hpv a ha] at this
+            exact this))⟩
   | alert m s => exact ⟨_, rfl, fun rest => deAlert_append m s rest h.1 h.2⟩
   | inv l =>
       exact ⟨_, rfl, fun rest => mapP_ok _ _ _ _ _
@@ -880,9 +898,9 @@ end BtcVerif
 
 namespace BtcVerif
 open Model.Msg
-theorem dispatch_snd (c m r : Bytes) : (dispatch c m r).2 = r := by
+theorem dispatch_snd (pv : Nat) (c m r : Bytes) : (dispatch pv c m r).2 = r := by
   unfold dispatch
-  cases msgDeser c with
+  cases msgDeser pv c with
   | none => rfl
   | some p =>
     simp only
@@ -896,14 +914,14 @@ open Model.Wire Model.Msg
 
 /-- whatever `stream_deserialize` returns came from a frame that passes every header test, and
     exactly that frame was consumed -/
-theorem streamDeserialize_ok_valid (magic s : Bytes) (m : Option Msg) (r : Bytes)
-    (h : streamDeserialize magic s = (.ok m, r)) :
+theorem streamDeserialize_ok_valid (magic : Bytes) (pv : Nat) (s : Bytes) (m : Option Msg) (r : Bytes)
+    (h : streamDeserialize magic pv s = (.ok m, r)) :
     24 ≤ s.length ∧ s.take 4 = magic ∧ declaredLen s ≤ MAX_SIZE ∧ 24 + declaredLen s ≤ s.length ∧
     (s.drop 20).take 4 = Model.Msg.checksum ((s.drop 24).take (declaredLen s)) ∧
     r = s.drop (24 + declaredLen s) := by
   by_cases hs : s.length < 24
-  · rw [streamDeserialize_short magic s hs] at h; simp at h
-  · rw [streamDeserialize_unfold magic s (by omega)] at h
+  · rw [streamDeserialize_short magic pv s hs] at h; simp at h
+  · rw [streamDeserialize_unfold magic pv s (by omega)] at h
     by_cases c1 : s.take 4 ≠ magic
     · rw [if_pos c1] at h; simp at h
     · rw [if_neg c1] at h
@@ -922,15 +940,15 @@ theorem streamDeserialize_ok_valid (magic s : Bytes) (m : Option Msg) (r : Bytes
               exact this.symm
             exact ⟨by omega, by simpa using c1, by omega, by omega, by simpa using c4, hr⟩
 
-theorem streamDeserialize_ok_shorter (magic s : Bytes) (m : Option Msg) (r : Bytes)
-    (h : streamDeserialize magic s = (.ok m, r)) : r.length < s.length := by
-  obtain ⟨h1, _, _, h4, _, h6⟩ := streamDeserialize_ok_valid magic s m r h
+theorem streamDeserialize_ok_shorter (magic : Bytes) (pv : Nat) (s : Bytes) (m : Option Msg) (r : Bytes)
+    (h : streamDeserialize magic pv s = (.ok m, r)) : r.length < s.length := by
+  obtain ⟨h1, _, _, h4, _, h6⟩ := streamDeserialize_ok_valid magic pv s m r h
   rw [h6, List.length_drop]
   omega
 
 /-- enough fuel is enough: the loop's result does not depend on the fuel once it covers the stream -/
-theorem parseAllAux_fuel (magic : Bytes) : ∀ (f1 f2 : Nat) (s : Bytes), s.length ≤ f1 → s.length ≤ f2 →
-    parseAllAux magic f1 s = parseAllAux magic f2 s := by
+theorem parseAllAux_fuel (magic : Bytes) (pv : Nat) : ∀ (f1 f2 : Nat) (s : Bytes), s.length ≤ f1 → s.length ≤ f2 →
+    parseAllAux magic pv f1 s = parseAllAux magic pv f2 s := by
   intro f1
   induction f1 with
   | zero =>
@@ -950,12 +968,12 @@ theorem parseAllAux_fuel (magic : Bytes) : ∀ (f1 f2 : Nat) (s : Bytes), s.leng
       by_cases he : s.isEmpty = true
       · simp [he]
       · simp only [he, Bool.false_eq_true, if_false]
-        cases hsd : streamDeserialize magic s with
+        cases hsd : streamDeserialize magic pv s with
         | mk out r =>
           cases out with
           | error e => rfl
           | ok m =>
-            have := streamDeserialize_ok_shorter magic s m r hsd
+            have := streamDeserialize_ok_shorter magic pv s m r hsd
             simp only
             rw [ih f2 r (by omega) (by omega)]
 
@@ -965,9 +983,9 @@ namespace BtcVerif
 open Model.Wire Model.Msg
 
 /-- `parseAll` is the projection of the position-recording loop the driver prints -/
-theorem parseAllAux_eq_trace (magic : Bytes) : ∀ (fuel : Nat) (s : Bytes),
-    parseAllAux magic fuel s =
-      ((parseTraceAux magic fuel s).1.map Prod.fst, (parseTraceAux magic fuel s).2.map Prod.fst) := by
+theorem parseAllAux_eq_trace (magic : Bytes) (pv : Nat) : ∀ (fuel : Nat) (s : Bytes),
+    parseAllAux magic pv fuel s =
+      ((parseTraceAux magic pv fuel s).1.map Prod.fst, (parseTraceAux magic pv fuel s).2.map Prod.fst) := by
   intro fuel
   induction fuel with
   | zero => intro s; rfl
@@ -977,7 +995,7 @@ theorem parseAllAux_eq_trace (magic : Bytes) : ∀ (fuel : Nat) (s : Bytes),
     by_cases he : s.isEmpty = true
     · simp [he]
     · simp only [he, Bool.false_eq_true, if_false]
-      cases hsd : streamDeserialize magic s with
+      cases hsd : streamDeserialize magic pv s with
       | mk out r =>
         cases out with
         | error e => rfl
@@ -993,21 +1011,21 @@ theorem frameAccepted_iff (magic s : Bytes) :
   simp [frameAccepted, and_assoc]
 
 /-- an accepted frame goes to the dispatch on its command; everything else is a frame-level error -/
-theorem accepted_dispatch (magic s : Bytes) (h : frameAccepted magic s = true) :
-    streamDeserialize magic s =
-      dispatch (((s.drop 4).take 12).takeWhile (· ≠ 0)) ((s.drop 24).take (declaredLen s))
+theorem accepted_dispatch (magic : Bytes) (pv : Nat) (s : Bytes) (h : frameAccepted magic s = true) :
+    streamDeserialize magic pv s =
+      dispatch pv (((s.drop 4).take 12).takeWhile (· ≠ 0)) ((s.drop 24).take (declaredLen s))
         (s.drop (24 + declaredLen s)) := by
   obtain ⟨h1, h2, h3, h4, h5⟩ := (frameAccepted_iff magic s).mp h
-  rw [streamDeserialize_unfold magic s h1]
+  rw [streamDeserialize_unfold magic pv s h1]
   have c2 : ¬ declaredLen s > MAX_SIZE := by omega
   have c3 : ¬ s.length - 24 < declaredLen s := by omega
   simp [h2, c2, c3, h5]
 
-theorem not_accepted_error (magic s : Bytes) (h : frameAccepted magic s = false) :
-    ∃ e r, streamDeserialize magic s = (.error e, r) ∧ (e = .trunc ∨ e = .valueerr ∨ e = .sererr) := by
+theorem not_accepted_error (magic : Bytes) (pv : Nat) (s : Bytes) (h : frameAccepted magic s = false) :
+    ∃ e r, streamDeserialize magic pv s = (.error e, r) ∧ (e = .trunc ∨ e = .valueerr ∨ e = .sererr) := by
   by_cases hs : s.length < 24
-  · exact ⟨.trunc, [], streamDeserialize_short magic s hs, Or.inl rfl⟩
-  · rw [streamDeserialize_unfold magic s (by omega)]
+  · exact ⟨.trunc, [], streamDeserialize_short magic pv s hs, Or.inl rfl⟩
+  · rw [streamDeserialize_unfold magic pv s (by omega)]
     by_cases c1 : s.take 4 ≠ magic
     · exact ⟨.valueerr, _, by rw [if_pos c1], Or.inr (Or.inl rfl)⟩
     · rw [if_neg c1]
@@ -1030,8 +1048,8 @@ end BtcVerif
 namespace BtcVerif
 open Model.Wire Model.Msg
 
-theorem parseTraceAux_fuel (magic : Bytes) : ∀ (f1 f2 : Nat) (s : Bytes), s.length ≤ f1 → s.length ≤ f2 →
-    parseTraceAux magic f1 s = parseTraceAux magic f2 s := by
+theorem parseTraceAux_fuel (magic : Bytes) (pv : Nat) : ∀ (f1 f2 : Nat) (s : Bytes), s.length ≤ f1 → s.length ≤ f2 →
+    parseTraceAux magic pv f1 s = parseTraceAux magic pv f2 s := by
   intro f1
   induction f1 with
   | zero =>
@@ -1051,12 +1069,12 @@ theorem parseTraceAux_fuel (magic : Bytes) : ∀ (f1 f2 : Nat) (s : Bytes), s.le
       by_cases he : s.isEmpty = true
       · simp [he]
       · simp only [he, Bool.false_eq_true, if_false]
-        cases hsd : streamDeserialize magic s with
+        cases hsd : streamDeserialize magic pv s with
         | mk out r =>
           cases out with
           | error e => rfl
           | ok m =>
-            have := streamDeserialize_ok_shorter magic s m r hsd
+            have := streamDeserialize_ok_shorter magic pv s m r hsd
             simp only
             rw [ih f2 r (by omega) (by omega)]
 
